@@ -350,6 +350,14 @@ def _task_one(task):
                 for use_raw in (False, True):
                     check_dataset(t, defn, doc, [write(pk)], pk, use_raw, {**base_case, "variant": f"file starting with the bytes {magic}", "use_raw_values": use_raw,
                                                                            "packets": [p.hex() for p in pk]}, string_encoded)
+            # (g) many APIDs in one call: 150 and 300 of them, each met again after all the others (one file, and the repetition in a second file)
+            for napid in (150, 300):
+                once = [framing.mk_packet(bytes([a & 0xFF]), apid=5 + a, seqcount=a) for a in range(napid)]
+                again = [framing.mk_packet(bytes([(a + 1) & 0xFF]), apid=5 + a, seqcount=a + 1) for a in range(napid)]
+                for files_ in ([once + again], [once, again]):
+                    check_dataset(t, defn, doc, [write(part) for part in files_], once + again, napid == 300,
+                                  {**base_case, "variant": f"{napid} APIDs, each met twice, in {len(files_)} file(s)", "use_raw_values": napid == 300,
+                                   "packets": [p.hex() for p in (once + again)[:4]]}, string_encoded)
             # (c) a polymorphic APID must be rejected with ValueError
             from space_packet_parser import xarr
             poly = [framing.mk_packet(bytes([0, 9]), apid=3), framing.mk_packet(bytes([1, 9]), apid=3, seqcount=1)]
